@@ -713,6 +713,8 @@ def _sig(tr, l, clause, world, hidden=(), shape=None):
     dt = 'undescribed' if d is None else (d['dt'] if d['kind'] == 'param' else d['arg'])['t']
     target = 'undescribed' if d is None else d['kind'] + (':const' if d.get('const', NULL) != NULL else
                                                            ':ro' if d.get('ro') else '')
+    if req['act'] == 'activate' and not req['name'] and req['mod'] in tr[0]['desc']:
+        target = dt = 'module'
     if [req['mod'], req['name']] in list(hidden):
         target = 'cfg-hidden'
     if shape:        # generated node: the generator knows where the final accessible comes from
